@@ -205,14 +205,15 @@ type mSide struct {
 	T       *vsql.Table
 	Ops     []string        // executed statements ({T} placeholder kept)
 	Touched map[string]bool // keys this side inserted / updated / deleted
+	UpdCols map[string]map[string]bool // key -> names of the columns this side assigned by UPDATE (only while the key was never inserted/deleted here)
 }
 
 func mNewSide(sp mSpec) *mSide {
-	return &mSide{Cols: append([]mCol(nil), sp.Cols...), NPK: sp.NPK, T: vsql.NewTable(mNames(sp.Cols), sp.NPK), Touched: map[string]bool{}}
+	return &mSide{Cols: append([]mCol(nil), sp.Cols...), NPK: sp.NPK, T: vsql.NewTable(mNames(sp.Cols), sp.NPK), Touched: map[string]bool{}, UpdCols: map[string]map[string]bool{}}
 }
 
 func (s *mSide) clone() *mSide {
-	c := &mSide{Cols: append([]mCol(nil), s.Cols...), NPK: s.NPK, T: s.T.Clone(), Touched: map[string]bool{}}
+	c := &mSide{Cols: append([]mCol(nil), s.Cols...), NPK: s.NPK, T: s.T.Clone(), Touched: map[string]bool{}, UpdCols: map[string]map[string]bool{}}
 	return c
 }
 
@@ -280,6 +281,7 @@ func (p mPred) match(key string) bool {
 type mOpOpts struct {
 	keyMax   int
 	hot      []string // keys touched by the other side (collision bias)
+	other    *mSide   // the other side after its history (nil while generating the first side): directed ops
 	maxRange int      // widest pk range of a ranged UPDATE / DELETE
 	wInsert  int      // weights
 	wUpdate  int
@@ -287,7 +289,7 @@ type mOpOpts struct {
 }
 
 func (s *mSide) genKey(rt *rapid.T, label string, o mOpOpts) []string {
-	if len(o.hot) > 0 && rapid.IntRange(0, 9).Draw(rt, label+".hot") < 5 {
+	if len(o.hot) > 0 && rapid.IntRange(0, 9).Draw(rt, label+".hot") < 4 {
 		return strings.Split(rapid.SampledFrom(o.hot).Draw(rt, label+".hotkey"), "\x1f")
 	}
 	if n := len(s.T.Rows); n > 0 && rapid.IntRange(0, 9).Draw(rt, label+".existing") < 3 {
@@ -320,6 +322,18 @@ func (s *mSide) genOp(rt *rapid.T, label string, o mOpOpts) string {
 	total := o.wInsert + o.wUpdate + o.wDelete
 	c := rapid.IntRange(0, total-1).Draw(rt, label+".kind")
 	var stmt string
+	if o.other != nil {
+		switch d := rapid.IntRange(0, 9).Draw(rt, label+".directed"); {
+		case d < 2:
+			stmt = s.genDisjointUpdate(rt, label, o)
+		case d < 3:
+			stmt = s.genQuietDelete(rt, label, o)
+		}
+		if stmt != "" {
+			s.Ops = append(s.Ops, stmt)
+			return stmt
+		}
+	}
 	switch {
 	case c < o.wInsert:
 		stmt = s.genInsert(rt, label, o)
@@ -354,6 +368,9 @@ func (s *mSide) genInsert(rt *rapid.T, label string, o mOpOpts) string {
 	}
 	s.T.Put(row)
 	s.Touched[s.T.Key(row)] = true
+	for _, c := range s.Cols[s.NPK:] {
+		s.noteUpd(s.T.Key(row), c.Name)
+	}
 	return fmt.Sprintf("%s INTO {T} (%s) VALUES (%s)", verb, strings.Join(names, ","), strings.Join(lits, ","))
 }
 
@@ -395,10 +412,78 @@ func (s *mSide) genUpdate(rt *rapid.T, label string, o mOpOpts) string {
 			} else {
 				r[a.idx] = a.val
 			}
+			s.noteUpd(k, s.Cols[a.idx].Name)
 		}
 		s.Touched[k] = true
 	}
 	return fmt.Sprintf("UPDATE {T} SET %s WHERE %s", strings.Join(sets, ", "), p.sql(s))
+}
+
+// genDisjointUpdate: a point UPDATE of a row the other side also UPDATEd, on a column the other
+// side did not assign (the shape that needs a cell-wise merge). "" when there is no such row.
+func (s *mSide) genDisjointUpdate(rt *rapid.T, label string, o mOpOpts) string {
+	type cand struct {
+		key string
+		col int
+	}
+	var cands []cand
+	oks := make([]string, 0, len(o.other.UpdCols))
+	for k := range o.other.UpdCols {
+		oks = append(oks, k)
+	}
+	sort.Strings(oks)
+	for _, k := range oks {
+		if _, ok := s.T.Rows[k]; !ok {
+			continue
+		}
+		if _, ok := o.other.T.Rows[k]; !ok {
+			continue
+		}
+		for i := s.NPK; i < len(s.Cols); i++ {
+			if !o.other.UpdCols[k][s.Cols[i].Name] {
+				cands = append(cands, cand{k, i})
+			}
+		}
+	}
+	if len(cands) == 0 {
+		return ""
+	}
+	cd := cands[rapid.IntRange(0, len(cands)-1).Draw(rt, label+".dj")]
+	c := s.Cols[cd.col]
+	v := c.genVal(rt, label+".djv")
+	s.T.Rows[cd.key][cd.col] = v
+	s.Touched[cd.key] = true
+	s.noteUpd(cd.key, c.Name)
+	p := mPred{kind: 0, key: strings.Split(cd.key, "\x1f")}
+	return fmt.Sprintf("UPDATE {T} SET %s = %s WHERE %s", c.Name, mLit(v, c.Kind), p.sql(s))
+}
+
+// genQuietDelete: delete one row the other side never touched. "" when there is none.
+func (s *mSide) genQuietDelete(rt *rapid.T, label string, o mOpOpts) string {
+	var cands []string
+	for _, k := range s.T.Keys() {
+		if !o.other.Touched[k] {
+			cands = append(cands, k)
+		}
+	}
+	if len(cands) == 0 {
+		return ""
+	}
+	k := cands[rapid.IntRange(0, len(cands)-1).Draw(rt, label+".qd")]
+	s.T.Delete(k)
+	s.Touched[k] = true
+	delete(s.UpdCols, k)
+	p := mPred{kind: 0, key: strings.Split(k, "\x1f")}
+	return fmt.Sprintf("DELETE FROM {T} WHERE %s", p.sql(s))
+}
+
+func (s *mSide) noteUpd(key, col string) {
+	m, ok := s.UpdCols[key]
+	if !ok {
+		m = map[string]bool{}
+		s.UpdCols[key] = m
+	}
+	m[col] = true
 }
 
 func (s *mSide) genDelete(rt *rapid.T, label string, o mOpOpts) string {
@@ -407,6 +492,7 @@ func (s *mSide) genDelete(rt *rapid.T, label string, o mOpOpts) string {
 		if p.match(k) {
 			s.T.Delete(k)
 			s.Touched[k] = true
+			delete(s.UpdCols, k)
 		}
 	}
 	return fmt.Sprintf("DELETE FROM {T} WHERE %s", p.sql(s))
@@ -604,3 +690,66 @@ func mSelect(table string, cols []string) string {
 func mInst(stmt, table string) string { return strings.ReplaceAll(stmt, "{T}", table) }
 
 func sortStrings(s []string) { sort.Strings(s) }
+
+// ---------------------------------------------------------------------------------------
+// environment: one server and one database per test function, one family of branches per case.
+//
+// CREATE DATABASE costs 25 ms .. 2 s on a loaded machine, a branch costs ~10 ms, so every
+// generated case lives on its own branches (k<n>_base, _b1, _b2, _m1, _m2) cut from the empty
+// root commit of `main`; tables of other cases do not exist on them. The branches are deleted
+// when the case ends.
+
+type mEnv struct {
+	srv *vsql.Server
+	db  string
+	seq int
+}
+
+func mNewEnv(t vsql.TB, dir string) (*mEnv, error) {
+	srv, err := vsql.StartServer(dir)
+	if err != nil {
+		return nil, err
+	}
+	admin := srv.Session(t, "admin", "")
+	defer admin.Close()
+	if err := admin.Exec("CREATE DATABASE mdb"); err != nil {
+		srv.Stop()
+		return nil, err
+	}
+	return &mEnv{srv: srv, db: "mdb"}, nil
+}
+
+// mCase is the per-case handle: a fresh session and a branch-name prefix.
+type mCase struct {
+	env      *mEnv
+	pfx      string
+	se       *vsql.Session
+	branches []string
+}
+
+func (e *mEnv) newCase(rt *rapid.T) *mCase {
+	e.seq++
+	c := &mCase{env: e, pfx: fmt.Sprintf("k%d_", e.seq)}
+	c.se = e.srv.Session(rt, "s", e.db)
+	return c
+}
+
+// checkoutNew creates branch name (prefixed) at from ("" = main's empty root) and switches to it.
+func (c *mCase) checkoutNew(rt *rapid.T, name, from string) {
+	start := "main"
+	if from != "" {
+		start = c.pfx + from
+	}
+	c.se.MustExec(rt, fmt.Sprintf("CALL dolt_checkout('-b','%s','%s')", c.pfx+name, start))
+	c.branches = append(c.branches, c.pfx+name)
+}
+
+func (c *mCase) close() {
+	_ = c.se.Exec("ROLLBACK")
+	_ = c.se.Exec("SET autocommit = 1")
+	_ = c.se.Exec("CALL dolt_checkout('main')")
+	for _, b := range c.branches {
+		_ = c.se.Exec(fmt.Sprintf("CALL dolt_branch('-D','%s')", b))
+	}
+	c.se.Close()
+}
